@@ -276,14 +276,25 @@ func runC05(tier string, r *Result) {
 		for di, ds := range docSets {
 			for _, indent := range []string{"", "  ", "\t"} {
 				for _, crlf := range []bool{false, true} {
-					for _, inner := range []string{"", "\n", " # c\n", "\r\n"} {
+					for _, inner := range []string{"", "\n", " # c\n", "\r\n", "tight", "tight+trail"} {
 						dd := &RIDL{Name: d.Name, Doc: docSets[(di+1)%len(docSets)]}
 						for mi, m := range d.Members {
 							m.Doc = docSets[(di+mi)%len(docSets)]
 							dd.Members = append(dd.Members, m)
 						}
 						_ = ds
-						text := renderDocs(dd, indent, crlf, inner)
+						var text string
+						docTrail = ""
+						switch inner {
+						case "tight":
+							// members without blank lines between them ...
+							text = renderDocsT(dd, indent, crlf, "", true, "")
+						case "tight+trail":
+							// ... and with a trailing comment on the interface line and every member's last line
+							text = renderDocsT(dd, indent, crlf, "", true, "t")
+						default:
+							text = renderDocs(dd, indent, crlf, inner)
+						}
 						in := c05Input{Tree: dd, Text: text, Docs: true, Where: fmt.Sprintf("docs indent=%q crlf=%v inner=%q", indent, crlf, inner)}
 						r.Executions++
 						r.Steps += len(text)
@@ -294,6 +305,7 @@ func runC05(tier string, r *Result) {
 						} else {
 							r.outcome("ok:docs")
 						}
+						docTrail = ""
 					}
 				}
 			}
